@@ -13,11 +13,7 @@ one() {
   cp -al /repo/edb $w/edb
   [ -d /repo/tests ] && mkdir -p $w/tests
   if ! (cd $w && patch -p1 -s -f --no-backup-if-mismatch < $d/patch.diff >/dev/null 2>$w/apply.err); then
-    # patches may touch files outside edb/ (tests, docs): retry restricted to edb/
-    rm -rf $w/edb; cp -al /repo/edb $w/edb
-    if ! (cd $w && filterdiff -i '*/edb/*' $d/patch.diff 2>/dev/null | patch -p1 -s -f --no-backup-if-mismatch >/dev/null 2>&1); then
-      echo "$id PATCH-DOES-NOT-APPLY"; rm -rf $w; return
-    fi
+    echo "$id PATCH-DOES-NOT-APPLY"; rm -rf $w; return
   fi
   out=$(VERIF_REPO=$w VERIF_EVIDENCE_DIR=$w/ev /venv/bin/python /verif/check $prop --tier quick 2>&1); rc=$?
   rules=$(echo "$out" | grep -E '^FINDING' | sed -E 's/.*rule=([^ ]+) construct=([^ ]+).*/\1 \2/' | head -3 | tr '\n' ';')
